@@ -187,7 +187,7 @@ def native_geometry(rng, n):
     grids = {"3B2": (1, 4, 480), "NP2.1": (2, 2, 640), "NP2.4": (2.4, 2, 640)}
     for t in range(n):
         for vkey, (ver, ncol, nrow) in grids.items():
-            nsites = int(rng.choice([384, 300, 96]))
+            nsites = int(rng.choice([384, 300, 96, 1, 2, 5]))           # incl. a handful of saved sites (they need not reach both outer columns)
             nsh = 4 if vkey == "NP2.4" else 1
             sites = set()
             while len(sites) < nsites:
@@ -197,6 +197,8 @@ def native_geometry(rng, n):
             if vkey == "3B2":    # NP1 checkerboard: shank-map col 0/1, the flip uses row parity
                 sites = [(s, c % 2, r) for s, c, r in sites]
                 sites = list(dict.fromkeys(sites))
+                if t % 3 == 2:
+                    sites = [q for q in sites if q[2] % 2 == 0] or sites[:1]        # even rows only: one side of the checkerboard
             smap = f"({nsh},{ncol},{nrow})" + "".join(f"({s}:{c}:{r}:1)" for s, c, r in sites)
             if vkey == "3B2":
                 gmap = "(NP1,1,0,70)" + "".join(f"({s}:{27 + 32 * c - 16 * (r % 2)}:{20 * r}:1)" for s, c, r in sites)
